@@ -42,6 +42,7 @@ deriving DecidableEq, Repr, Inhabited
 /-- `amount_to_gbp` -/
 def toGbpAmt (c : Cache) (d : Date) (a : CAmt) : Except FxErr Rat :=
   if a.cur = "GBP" then .ok a.amt
+  else if a.amt = 0 then .ok 0          -- a zero amount needs no rate
   else match c.get (a.cur, d.y, d.m) with
     | some r => .ok (a.amt / r)
     | none => .error ⟨a.cur, d.y, d.m⟩
